@@ -569,7 +569,10 @@ nodesLoop:
 			var name string
 			var ti *typeInfo
 			if a := node.Assignment; a.Type == ast.AssignmentDeclaration {
-				ident := a.Lhs[0].(*ast.Identifier)
+				ident, ok := a.Lhs[0].(*ast.Identifier)
+				if !ok {
+					panic(tc.errorf(a.Lhs[0], "invalid variable name %s in type switch", a.Lhs[0]))
+				}
 				name = ident.Name
 				ti = &typeInfo{Type: t.Type, Properties: propertyAddressable}
 				tc.scopes.Declare(name, ti, ident, nil)
